@@ -24,7 +24,7 @@ theorem containsRegionLoop_spec (r : Reg) : ∀ (suf pre : List Reg),
   | cons a rest ih =>
     intro pre
     have hb : (a == r) = Reg.beq a r := rfl
-    simp only [Gen.containsRegionLoop, goAt_append_length, List.any_cons, hb]
+    simp only [Gen.containsRegionLoop, clAt_append_length, List.any_cons, hb]
     by_cases h : Reg.beq a r = true
     · simp [h]
     · have := ih (pre ++ [a])
@@ -99,7 +99,7 @@ exactly the model's `Cli.extract` (first occurrences of the located regions in o
 expression in it panics. -/
 theorem extractStep_eq (locators : List (Seq → List Reg)) (invert : Bool) (seq : Seq) :
     Gen.extractStep locators invert seq = some (Cli.extract locators invert seq) := by
-  have hm : Gen.goMake Reg 0 = some [] := goMake_nat Reg 0
+  have hm : Gen.clMake Reg 0 = some [] := clMake_nat Reg 0
   simp only [Gen.extractStep, hm, extractStepLoop_eq, Cli.extract, Cli.extractRegs]
   cases invert <;> simp [extractStepLoop3_eq]
 
